@@ -17,28 +17,42 @@ THEOREMS = [_T + n for n in [
     "C16_range_kernel", "C16_index_kernel", "C16_indexer_kernel", "C16_set_kernel", "C16_set_cell",
     "C16_rule_at", "C16_count_robust"]]
 LEVEL_TEXT = ("Lean theorems over the rational model of create_range_dim / create_time_range / create_frequency_range "
-              "(lattice, inside [start, stop), count for whole quotients and in general, step attribute), of get_coord_index "
-              "(the unique bin on a sorted axis, upper edge, raise or clamp outside; the executable statement determines the "
-              "output) and of set_value_at_pos (exactly the addressed cell or slice is written) hold for all inputs; the model "
-              "is tied to the code by differential runs that are exact (dyadic grids for ranges, arbitrary floats for the "
-              "comparison-only lookup, all small shapes for writes).")
-LEVEL_NOTE = ("Unmodelled: binary64 rounding inside numpy arange (count and coordinates for non-representable steps such as "
-              "0.1, 1/3, 1/44100 are monitored on the real code: count exact, coordinates within 2^-40), pandas "
-              "get_slice_bound (modelled as #{c <= v}), numpy broadcasting rules beyond right-aligned equal-or-1. "
-              "Model tied to the code by generator-bounded correspondence only (no table or symbolic tie applies: the "
-              "code goes through numpy/pandas/xarray).")
-TECHNIQUE = "Lean 4 proof over model; exact differential correspondence; free-mode monitor for arange rounding"
-RULE = ("range requests on dyadic grids (all quotient fractions 0, 1/4, 1/2, 3/4), decimal-step monitor, lookups on "
-        "float axes of 1-6 points with queries at, between, next to and beyond coordinates, writes on every shape with "
-        "1-3 axes of 1-3 points; non-trivial = the implementation returned a value; distinct = distinct (operation, input)")
-TRUSTED = ["numpy arange / pandas get_slice_bound / xarray indexes and get_axis_num (modelled, validated by correspondence)"]
+              "(lattice, inside [start, stop), count for whole quotients and in general, step attribute; the trailing-point "
+              "rule yields exactly n points whichever way rounding went inside arange, under an executable contract on "
+              "numpy's output), of get_coord_index (the unique bin on a sorted axis, upper edge, raise or clamp outside; the "
+              "executable statement determines the output) and of set_value_at_pos (end to end: an element holds the value "
+              "iff its multi-index is the bin of every queried position, every other element unchanged) hold for all inputs. "
+              "The straight-line code of all five functions around their library calls (step selection, the arange call, "
+              "trailing-point guard and threshold, range test, clamp values, slice-bound side and offset, the indexer) is "
+              "traced symbolically from the current source on every run and proved equal to the model's kernels for all "
+              "rationals (38 obligations); the library calls themselves are tied by exact differential runs (dyadic grids "
+              "for ranges, arbitrary floats for the comparison-only lookup, all small shapes for writes).")
+LEVEL_NOTE = ("Unmodelled: binary64 rounding inside numpy arange (hypothesis of C16_count_robust, evaluated exactly on what "
+              "np.arange returned for steps such as 0.1, 1/3, 1/44100 and for steps derived from size= / samplerate=; "
+              "coordinates additionally within 2^-40 of the lattice), pandas get_slice_bound (modelled as #{c <= v}; known "
+              "finding C16-2: on a float32 axis pandas casts the query value to float32 first), numpy broadcasting rules "
+              "beyond right-aligned equal-or-1.  The symbolic ties cover arrays of up to three dimensions; "
+              "create_*_dim_from_array and set_dim_attrs are outside the model.")
+TECHNIQUE = ("Lean 4 proof over model; symbolic-trace equality obligations for the kernels of the range constructors, "
+             "get_coord_index and set_value_at_pos; exact differential correspondence; numpy-contract monitor for arange rounding")
+RULE = ("range requests on dyadic grids (all quotient fractions 0, 1/4, 1/2, 3/4; int / numpy-scalar arguments, float32 "
+        "coordinates), decimal-step monitor (step=, size=, samplerate=), lookups on float axes of 1-6 points with queries at, "
+        "between, next to and beyond coordinates (float / numpy / int query values, float32 and int64 axes), writes on every "
+        "shape with 1-3 axes of 1-3 points and a 4-D sample; non-trivial = the implementation returned a value; distinct = "
+        "distinct (operation, input)")
+TRUSTED = ["numpy arange / pandas get_slice_bound / xarray indexes and get_axis_num (modelled, validated by correspondence)",
+           "the stand-ins of harness/c16_sym.py answer like numpy / xarray where the kernels ask (np.arange raises on a zero "
+           "step, Index.min / max are the range of an increasing axis, get_axis_num raises ValueError for an unknown dimension)"]
 ASSUMPTIONS = ["binary64 arithmetic is exact on the dyadic grids used for range requests",
                "step > 0 and start <= stop for range requests; axes increasing for lookups (the property's quantifier)",
                "the query value of a lookup is a number of the axis' dtype (on a float32 axis pandas casts a binary64 "
                "value to float32 first: known finding C16-2)"]
 NOT_COMPARED = ["error messages (only the error class)", "attributes other than `step`",
-                "range requests with non-representable steps: only count, lattice within tolerance, inside-ness and the step "
-                "attribute are checked on the real output (the rational model cannot exhibit arange rounding)"]
+                "range requests with non-representable steps: the result is fixed by C16_count_robust given numpy's arange "
+                "output (exact), plus lattice within tolerance, inside-ness and the step attribute (the rational model cannot "
+                "exhibit arange rounding)",
+                "whether set_value_at_pos returns the very array it was given (only its data, shape and coordinates)",
+                "lookups on an empty axis (the code returns -1, the model ValueError; outside the quantifier)"]
 
 
 # ------------------------------------------------------------------ implementations
